@@ -37,8 +37,10 @@ void ext__ZNSt7__cxx1112basic_stringIcSt11char_traitsIcESaIcEE9_M_mutateEmmPKcm(
 #ifdef RT_STRING_NO_GROW
   /* obligations that bound every std::string by its initial capacity (15 characters in place, or the exact size it was constructed
    * with) state so in their bounds; reaching a reallocation is then reported as a failed assertion, never silently cut */
+#ifdef __CPROVER__
   __CPROVER_assert(0, "std::string reallocation reached: outside the stated bound of this obligation");
   __CPROVER_assume(0);
+#endif
 #endif
   u64 how_much = s->len - pos - len1;
   u64 new_capacity = s->len + len2 - len1;
@@ -50,3 +52,10 @@ void ext__ZNSt7__cxx1112basic_stringIcSt11char_traitsIcESaIcEE9_M_mutateEmmPKcm(
   if (s->p != s->u.local) free(s->p);
   s->p = r; s->u.cap = new_capacity;
 }
+
+/* std::ostringstream::str() const (result slot, this): exception messages are not the subject of any property; the formatting calls
+ * themselves are inert stubs and the resulting message is modelled as the empty string (a valid object, so its destructor is harmless) */
+void ext__ZNKSt7__cxx1119basic_ostringstreamIcSt11char_traitsIcESaIcEE3strEv(rt_string* ret, u8* self) {
+  (void)self; ret->p = ret->u.local; ret->len = 0; ret->u.local[0] = 0;
+}
+void ext__ZSt28__throw_bad_array_new_lengthv(void) { __verif_throw_std(__verif_tid__ZTISt9bad_alloc); }
